@@ -449,6 +449,13 @@ class Daemon(object):
                         except Exception as xv:
                             self.methodcall_error_handler(self, current_context.client_sock_addr, method, vargs, kwargs, xv)
                             xv._pyroTraceback = errors.format_traceback(detailed=config.DETAILED_TRACEBACK)
+                            try:
+                                serializer.dumps(xv)
+                            except Exception as sx:
+                                # the exception object couldn't be serialized, use a generic PyroError instead (like for a single call)
+                                tbinfo = xv._pyroTraceback
+                                xv = errors.PyroError("Error serializing exception: %s. Original exception: %s: %s" % (str(sx), type(xv), str(xv)))
+                                xv._pyroTraceback = tbinfo
                             data.append(core._ExceptionWrapper(xv))
                             break  # stop processing the rest of the batch
                         else:
